@@ -293,6 +293,14 @@ def check_arguments(arg, parser):
             "coalescent models are priors on time trees: a clock model is required"
             " (--clock)"
         )
+    if arg.birth_death is not None and (arg.clock is None or arg.heights != "ratio"):
+        parser.error(
+            "birth-death models are priors on time trees whose origin is defined"
+            " relative to the root height parameter: a clock model (--clock) and"
+            " --heights ratio are required"
+        )
+    if arg.birth_death == "bdsk" and arg.grid is None:
+        parser.error("bdsk birth-death model requires the grid argument")
     if arg.coalescent in COALESCENT_PIECEWISE:
         piecewise_grid = COALESCENT_PIECEWISE.copy()
         piecewise_grid.remove("skyride")
